@@ -48,8 +48,8 @@ def _space(sp):
 class A(Adapter):
     name = "bin_pack"
     lean = "bin_pack"
-    serves = {"C04", "C05", "C06", "C08", "C10", "C11", "C12"}
-    ops = ("state", "step", "judge", "instance")
+    serves = {"C01", "C04", "C05", "C06", "C08", "C10", "C11", "C12"}
+    ops = ("state", "step", "judge", "instance", "bounds")
     terminate_on_invalid = True
     max_steps = 40
 
